@@ -469,6 +469,14 @@ func (e *Env) applyIfaceContract(fr *Frame, it *Item, recv *Iface, m *types.Func
 	if e.dry == 0 {
 		e.usedContracts["interface "+it.Pkg+"."+it.Name] = true
 	}
+	if it.Opts["iterates"] != "" && !fr.pure {
+		if e.iterateClosure(fr, it, recv, args, vars, pkg, st) {
+			if tup, ok := rt.(*types.Tuple); ok && tup.Len() == 0 {
+				return nil
+			}
+			return e.freshValue(rt, "iter")
+		}
+	}
 	e.emitFor(it, ctx, st)
 	old := st.clone()
 	e.havocModifies(it, ctx, st)
